@@ -162,6 +162,8 @@ def _make_call(api, op: str, a: dict, remotes: dict | None = None):
             minutes = _Minutes(minutes)                    # an int is an int, whatever its class
         if minutes == 0 and a["on"] == 0:
             return api.control_device(Command.OFF)         # the timer argument is optional
+        if minutes % 3 == 2:                                # callers name optional arguments as often as not
+            return _named(api.control_device, (Command.ON if a["on"] else Command.OFF,), {"minutes": minutes})
         return api.control_device(Command.ON if a["on"] else Command.OFF, minutes)
     if op == "set_auto_shutdown":
         secs = a["secs"]
@@ -174,8 +176,12 @@ def _make_call(api, op: str, a: dict, remotes: dict | None = None):
             return api.set_auto_shutdown(timedelta(milliseconds=1000 * secs))
         return api.set_auto_shutdown(timedelta(seconds=secs))
     if op == "set_device_name":
+        if len(a["cps"]) % 2:
+            return _named(api.set_device_name, (), {"name": "".join(chr(c) for c in a["cps"])})
         return api.set_device_name("".join(chr(c) for c in a["cps"]))
     if op == "delete_schedule":
+        if a["slot"] % 2:
+            return _named(api.delete_schedule, (), {"schedule_id": str(a["slot"])})
         return api.delete_schedule(str(a["slot"]))
     if op == "create_schedule":
         D = sorted(Days, key=lambda d: d.weekday)
@@ -183,8 +189,14 @@ def _make_call(api, op: str, a: dict, remotes: dict | None = None):
         arg = set(days) if a.get("form", "set") == "set" else (list(days) if a["form"] == "list" else tuple(days))
         if isinstance(arg, set) and len(days) % 3 == 2:
             arg = frozenset(days)
+        if len(days) % 2:
+            return _named(api.create_schedule, (a["start_s"], a["end_s"]), {"days": arg})
+        if len(days) == 4:
+            return _named(api.create_schedule, (), {"start_time": a["start_s"], "end_time": a["end_s"], "days": arg})
         return api.create_schedule(a["start_s"], a["end_s"], arg)
     if op == "set_position":
+        if a["pos"] % 2:
+            return _named(api.set_position, (), {"position": a["pos"]})
         return api.set_position(a["pos"])
     if op == "control_breeze_device":
         M = {1: ThermostatMode.AUTO, 2: ThermostatMode.DRY, 3: ThermostatMode.FAN, 4: ThermostatMode.COOL, 5: ThermostatMode.HEAT}
@@ -195,6 +207,15 @@ def _make_call(api, op: str, a: dict, remotes: dict | None = None):
         return api.control_breeze_device(remote, S.get(a["state"]), M.get(a["mode"]), a["temp"], F.get(a["fan"]),
                                          W.get(a["swing"]), a["update"])
     return getattr(api, op)()
+
+
+def _named(fn, pos: tuple, named: dict):
+    """Call with the optional arguments passed by keyword; a signature that does not know the documented names is called
+    positionally instead (argument binding happens at the call, before anything is awaited)."""
+    try:
+        return fn(*pos, **named)
+    except TypeError:
+        return fn(*pos, *named.values())
 
 
 _MODE = {"01": 1, "02": 2, "03": 3, "04": 4, "05": 5}
